@@ -4,4 +4,6 @@ CONSTANT K = 4
 CONSTANT KW = 3
 CONSTANT KB = 2
 CONSTANT EmitScn = TRUE
+INVARIANT InputOrderPreserved
+INVARIANT ResultIsMeaning
 CHECK_DEADLOCK FALSE
